@@ -76,6 +76,9 @@ type cliCall struct {
 	outBag bool
 	// files: the command writes one alignment per file (in this order) instead of printing one
 	files []string
+	// okOnly: the command works on every sequence and stops at the first failing one: a failure says nothing about
+	// the one the step asks for, and is not logged
+	okOnly bool
 }
 
 var reStart = regexp.MustCompile(`number of start [^=]*=(-?\d+)`)
@@ -114,7 +117,7 @@ func readInts(path string) ([]int, bool) {
 }
 
 // plan maps a library operation and its arguments to a command line, or reports that the step has no command-line twin.
-func (c *cliFront) plan(o *obj, st Step) (*cliCall, string) {
+func (c *cliFront) plan(h *heapRun, o *obj, st Step) (*cliCall, string) {
 	a := st.A
 	un := []string{}
 	if o.al == nil {
@@ -317,6 +320,181 @@ func (c *cliFront) plan(o *obj, st Step) (*cliCall, string) {
 				tbl = append(tbl, row)
 			}
 			ret["table"] = tbl
+			return true
+		}}, ""
+	case "NumMutRef", "ListMutRef":
+		// one row of the table printed for every sequence against the named reference
+		if !needsAlign() {
+			return nil, "bag"
+		}
+		i, refi := ai(a, "i"), ai(a, "refi")
+		names := []string{}
+		uniq := map[string]bool{}
+		o.sb.IterateChar(func(name string, s []uint8) bool {
+			names = append(names, name)
+			uniq[name] = true
+			return false
+		})
+		if i < 0 || refi < 0 || i >= len(names) || refi >= len(names) || len(uniq) != len(names) || !printable([]byte(names[refi])) ||
+			strings.ContainsAny(names[i], "\t") {
+			return nil, "names"
+		}
+		if st.Op == "ListMutRef" && i == refi {
+			return nil, "names" // the command does not list the reference against itself
+		}
+		argv := []string{"stats", "mutations", "--ref-sequence=" + names[refi]}
+		if st.Op == "ListMutRef" {
+			argv = []string{"stats", "mutations", "list", "--ref-sequence=" + names[refi]}
+		}
+		return &cliCall{argv: argv, query: true, okOnly: true, ret: func(stdout, stderr string, ret map[string]interface{}) bool {
+			for _, l := range strings.Split(stdout, "\n") {
+				f := strings.Split(l, "\t")
+				if f[0] != names[i] {
+					continue
+				}
+				if st.Op == "NumMutRef" {
+					if len(f) != 2 {
+						return false
+					}
+					v, err := strconv.Atoi(f[1])
+					if err != nil {
+						return false
+					}
+					ret["v"] = v
+					return true
+				}
+				muts := []map[string]interface{}{}
+				if len(f) == 2 {
+					for _, m := range strings.Split(f[1], ",") {
+						k := 1
+						for k < len(m) && m[k] >= '0' && m[k] <= '9' {
+							k++
+						}
+						if len(m) < 2 || k == 1 {
+							return false
+						}
+						pos, _ := strconv.Atoi(m[1:k])
+						muts = append(muts, map[string]interface{}{"r": int(m[0]), "p": pos, "a": s2i(m[k:])})
+					}
+				} else if len(f) != 1 {
+					return false
+				}
+				ret["muts"] = muts
+				return true
+			}
+			return false
+		}}, ""
+	case "NumGapsUnique", "NumMutationsUnique":
+		if !needsAlign() {
+			return nil, "bag"
+		}
+		argv := []string{"stats", "gaps", "--unique"}
+		if st.Op == "NumMutationsUnique" {
+			argv = []string{"stats", "mutations", "--unique"}
+		}
+		hasprof := ai(a, "prof") != 0
+		if hasprof {
+			po := h.get(ai(a, "prof"))
+			if po.al == nil {
+				return nil, "bag"
+			}
+			prof := align.NewCountProfileFromAlignment(po.al)
+			if prof.NbCharacters() == 0 {
+				return nil, "profile"
+			}
+			var b bytes.Buffer
+			b.WriteString("site")
+			for k := 0; k < prof.NbCharacters(); k++ {
+				ch, _ := prof.NameAt(k)
+				if ch == '\t' || ch == '\n' {
+					return nil, "profile"
+				}
+				fmt.Fprintf(&b, "\t%c", ch)
+			}
+			b.WriteString("\n")
+			for site := 0; site < po.al.Length(); site++ {
+				fmt.Fprintf(&b, "%d", site)
+				for k := 0; k < prof.NbCharacters(); k++ {
+					n, _ := prof.CountAt(k, site)
+					fmt.Fprintf(&b, "\t%d", n)
+				}
+				b.WriteString("\n")
+			}
+			pf := filepath.Join(c.dir, "profile.txt")
+			if os.WriteFile(pf, b.Bytes(), 0o644) != nil {
+				return nil, "profile"
+			}
+			argv = append(argv, "--count-profile", pf)
+		}
+		nrows := o.sb.NbSequences()
+		return &cliCall{argv: argv, query: true, ret: func(stdout, stderr string, ret map[string]interface{}) bool {
+			lines := strings.Split(strings.TrimRight(stdout, "\n"), "\n")
+			if len(lines) != nrows {
+				return false
+			}
+			u, nw, bo := []int{}, []int{}, []int{}
+			for _, l := range lines {
+				f := strings.Split(l, "\t")
+				want := 2
+				if hasprof {
+					want = 4
+				}
+				if len(f) != want {
+					return false
+				}
+				v := []int{}
+				for _, x := range f[1:] {
+					n, err := strconv.Atoi(x)
+					if err != nil {
+						return false
+					}
+					v = append(v, n)
+				}
+				u = append(u, v[0])
+				if hasprof {
+					nw, bo = append(nw, v[1]), append(bo, v[2])
+				}
+			}
+			ret["uniq"], ret["new"], ret["both"] = u, nw, bo
+			return true
+		}}, ""
+	case "CountDifferences":
+		if !needsAlign() {
+			return nil, "bag"
+		}
+		nrows := o.sb.NbSequences()
+		return &cliCall{argv: []string{"diff", "--counts"}, query: true, ret: func(stdout, stderr string, ret map[string]interface{}) bool {
+			lines := strings.Split(strings.TrimRight(stdout, "\n"), "\n")
+			if len(lines) != nrows {
+				return false
+			}
+			head := strings.Split(lines[0], "\t")
+			all := [][]int{}
+			for _, d := range head[1:] {
+				if len(d) != 2 {
+					return false
+				}
+				all = append(all, []int{int(d[0]), int(d[1])})
+			}
+			rows := [][][]int{}
+			for _, l := range lines[1:] {
+				f := strings.Split(l, "\t")
+				if len(f) != len(head) {
+					return false
+				}
+				row := [][]int{}
+				for k := 1; k < len(f); k++ {
+					n, err := strconv.Atoi(f[k])
+					if err != nil {
+						return false
+					}
+					if n != 0 {
+						row = append(row, []int{all[k-1][0], all[k-1][1], n})
+					}
+				}
+				rows = append(rows, row)
+			}
+			ret["all"], ret["rows"] = all, rows
 			return true
 		}}, ""
 	case "MaxCharStats":
@@ -583,14 +761,20 @@ func (c *cliFront) plan(o *obj, st Step) (*cliCall, string) {
 			return true
 		}}, ""
 	case "Mask":
-		if !needsAlign() || len(abytes(a, "ref")) != 0 {
-			return nil, "ref" // with --ref-seq the command first converts the coordinates: not the same operation
+		// with --ref-seq the command first converts the window from reference coordinates (RefCoordinates), then masks:
+		// composed in the specification
+		ref := abytes(a, "ref")
+		if !needsAlign() || (len(ref) != 0 && !printable(ref)) {
+			return nil, "ref"
 		}
 		repl := abytes(a, "repl")
 		if !printable(repl) {
 			return nil, "repl"
 		}
-		argv := []string{"mask", "-s", strconv.Itoa(ai(a, "start")), "-l", strconv.Itoa(ai(a, "len")), "--replace=" + string(repl)}
+		argv := []string{"mask", "--start=" + strconv.Itoa(ai(a, "start")), "--length=" + strconv.Itoa(ai(a, "len")), "--replace=" + string(repl)}
+		if len(ref) != 0 {
+			argv = append(argv, "--ref-seq="+string(ref))
+		}
 		if ab(a, "nogap") {
 			argv = append(argv, "--no-gaps")
 		}
@@ -640,6 +824,33 @@ func (c *cliFront) plan(o *obj, st Step) (*cliCall, string) {
 			files = append(files, filepath.Join(c.dir, "sp_"+n+".fa"))
 		}
 		return &cliCall{argv: []string{"split", "--partition", pf, "-o", filepath.Join(c.dir, "sp_")}, files: files}, ""
+	case "SelectSites", "RefSites", "InversePositions":
+		// `subsites`: the listed columns; with --ref-seq the positions are first mapped through the reference
+		// (RefSites), with --reverse complemented (InversePositions) - composed in the specification
+		sites := aints(a, "sites")
+		if !needsAlign() || len(sites) == 0 {
+			return nil, "sites" // the command refuses an empty list itself
+		}
+		sf := filepath.Join(c.dir, "sites.txt")
+		var b bytes.Buffer
+		for _, x := range sites {
+			fmt.Fprintf(&b, "%d\n", x)
+		}
+		if os.WriteFile(sf, b.Bytes(), 0o644) != nil {
+			return nil, "sites"
+		}
+		argv := []string{"subsites", "--sitefile", sf}
+		switch st.Op {
+		case "RefSites":
+			nm := abytes(a, "name")
+			if !printable(nm) {
+				return nil, "names"
+			}
+			argv = append(argv, "--ref-seq="+string(nm))
+		case "InversePositions":
+			argv = append(argv, "--reverse")
+		}
+		return &cliCall{argv: argv}, ""
 	case "SubAlign":
 		if !needsAlign() {
 			return nil, "bag"
@@ -725,7 +936,7 @@ func (h *heapRun) cliStep(env *Env, c *cliFront, id string, i int, st Step) {
 				call, why = nil, "args"
 			}
 		}()
-		call, why = c.plan(o, st)
+		call, why = c.plan(h, o, st)
 	}()
 	if call == nil {
 		if why != "op" {
@@ -753,6 +964,12 @@ func (h *heapRun) cliStep(env *Env, c *cliFront, id string, i int, st Step) {
 		ev.A["a"] = map[string]interface{}{"z": 0}
 	}
 	added := 0
+	if err != nil && call.okOnly {
+		if _, isExit := err.(*exec.ExitError); isExit {
+			c.skipped["otherrow"]++
+			return
+		}
+	}
 	if err != nil {
 		if _, isExit := err.(*exec.ExitError); !isExit {
 			fmt.Fprintln(os.Stderr, "driver: cannot run goalign:", err)
